@@ -4,6 +4,7 @@ import (
 	"math"
 
 	"github.com/golang/geo/r1"
+	"github.com/golang/geo/r3"
 	"github.com/golang/geo/s1"
 )
 
@@ -118,6 +119,52 @@ func Harness_C10_rectbounder_degenerate_edges() {
 		vr.Assert("nearly antipodal consecutive vertices: the bound is full", rb.RectBound().IsFull())
 	} else {
 		vr.Assert("nearly identical consecutive vertices: both stay inside the bound", vr.And(rb.RectBound().ContainsPoint(a), rb.RectBound().ContainsPoint(b)))
+	}
+	vr.Reach("end")
+}
+
+// Rect.CapBound: a cap centred on the rectangle's centre through its corners bounds the
+// rectangle only while the longitude span is at most 180 degrees (beyond that the farthest
+// points are not the corners); wider rectangles, in particular those wrapping through ±π,
+// must get a pole-centred cap.  The cap constructors are opaque here (the mid cap is
+// marked by a centre with X = 7, heights are arbitrary); natively the real constructors run.
+func vrstub_C10_CapFromPoint(p Point) Cap {
+	return Cap{center: Point{r3.Vector{X: 7}}, radius: s1.ChordAngle(vr.Float64("midr"))}
+}
+func vrstub_C10_CapAddPoint(c Cap, p Point) Cap { return c }
+func vrstub_C10_CapFromCenterAngle(center Point, angle s1.Angle) Cap {
+	return Cap{center: center, radius: s1.ChordAngle(vr.Float64("poler"))}
+}
+func vrstub_C10_CapHeight(c Cap) float64 { return float64(c.radius) }
+func vrstub_C10_PointFromLatLng(ll LatLng) Point { return Point{} }
+
+func Harness_C10_rect_capbound_wide() {
+	vr.Domain("RUF")
+	r := vrValidRect("r")
+	vr.Assume(!r.IsEmpty())
+	if vr.Symbolic() {
+		vr.Stub("CapFromPoint", "vrstub_C10_CapFromPoint")
+		vr.Stub("(Cap).AddPoint", "vrstub_C10_CapAddPoint")
+		vr.Stub("CapFromCenterAngle", "vrstub_C10_CapFromCenterAngle")
+		vr.Stub("(Cap).Height", "vrstub_C10_CapHeight")
+		vr.Stub("PointFromLatLng", "vrstub_C10_PointFromLatLng")
+	}
+	c := r.CapBound()
+	wide := r.Lng.Length() > 3.25 // more than 186 degrees: clear of the rounding of the 180 degree boundary itself
+	// a rectangle centred on a pole has the pole as its centre either way
+	polar := vr.Or(r.Lat.Lo+r.Lat.Hi == math.Pi, r.Lat.Lo+r.Lat.Hi == -math.Pi)
+	vr.Assert("a rectangle wider than 180 degrees of longitude gets a pole-centred cap", vr.Implies(vr.And(wide, !polar), vr.And(c.center.X == 0, c.center.Y == 0)))
+	if !vr.Symbolic() {
+		// native witnesses: rectangles wrapping through ±π, wider than 180 degrees and far from the
+		// poles (where the centre cap would be the smaller one)
+		for _, w := range []Rect{
+			{Lat: r1.Interval{Lo: -0.5, Hi: 0.5}, Lng: s1.Interval{Lo: 1.44, Hi: -1.44}},
+			{Lat: r1.Interval{Lo: -0.2, Hi: 0.3}, Lng: s1.Interval{Lo: 1.0, Hi: -1.3}},
+			{Lat: r1.Interval{Lo: 0.1, Hi: 0.4}, Lng: s1.Interval{Lo: 2.0, Hi: -0.9}},
+		} {
+			wc := w.CapBound()
+			vr.Assert("a rectangle wider than 180 degrees of longitude gets a pole-centred cap", vr.Implies(w.Lng.Length() > 3.25, wc.center.X == 0 && wc.center.Y == 0))
+		}
 	}
 	vr.Reach("end")
 }
